@@ -50,10 +50,16 @@ static int vf_choose(int n, int kind)
 
 typedef void (*vf_run_fn)(void);
 
+#include <time.h>
+static time_t vf_deadline;             /* 0: none.  When it passes, exploration stops and the run reports timed_out */
+static int vf_timed_out;
+
 static void vf_explore_rec(vf_run_fn run, const int *prefix, int plen, const int *used, int used_total)
 {
 	int choice[VF_MAXCH], n[VF_MAXCH], kind[VF_MAXCH], len, i, alt;
-	memcpy(vf_prefix, prefix, sizeof(int) * (size_t)plen);
+	if (vf_timed_out) return;
+	if (vf_deadline && (vf_executions & 1023) == 0 && time((time_t *)0) > vf_deadline) { vf_timed_out = 1; return; }
+	if (plen > 0) memcpy(vf_prefix, prefix, sizeof(int) * (size_t)plen);
 	vf_prefix_len = plen;
 	vf_tr_len = 0;
 	vf_executions++;
